@@ -21,7 +21,10 @@
       PARTIAL (statement at the end of the file): over_time_is_definition on uniform grids.
     * aggGroup_repo_violates, aggStdVar_repo_violates, repo_reduction_violates: the pinned tree's behaviour (Cfg.repo)
       contradicts the property on concrete inputs; Cfg.fixed = fixes/C27-*.diff.
+    * binApply_self / binApply_matched: vector-vector binary operators (one-to-one): an operand matched against itself loses
+      no series; every result series stems from a left and a right series with equal matching label sets and carries them.
   topk/bottomk, quantile (q > 0), stddev on non-squares, grouping keys: correspondence + def-* oracle only.
+  Float rounding (numeric stability) is outside the exact model: judged by the harness' def-*-numeric oracle only.
 -/
 import SH.Model.PromEval
 import Mathlib.Algebra.Order.Field.Rat
@@ -511,7 +514,7 @@ example : evalReductionRules (some .sum) [(.agg (some .sumsec) false [], 0)] 1
 /-! ### the pinned tree drops the rule's `what`: a concrete storage where the property fails -/
 
 def exStore : Store := ⟨[[(1, 1), (2, 1), (3, 1)], [(1, 1), (2, 2), (3, 1)]], [⟨0, 100, 2⟩, ⟨1, 100, 10⟩, ⟨0, 101, 4⟩]⟩
-def exTS : TS := ⟨[99, 100, 101], 1, 1, 3, 1, 1⟩
+def exTS : TS := ⟨[99, 100, 101], 1, 1, 3, 1, 1, []⟩
 
 /-- `sum(m)`: the engine-side evaluation (selector wrapped in `+ 0`) gives 12 and 4; the fixed tree pushes it down with
     the same result; the pinned tree asks the storage for `avg` of the group and returns 6 and 4;
@@ -588,5 +591,86 @@ example : overTime [0, 5, 10, 15, 20] 3 5 .sum [some 1, some 2, none, some 4, so
   decide +kernel
 example : overTime [0, 5, 10, 15, 20] 3 5 .avg [some 1, some 2, none, some 4, some 8] = [none, some 2, none, some 4, some 8] := by
   decide +kernel
+
+/-! ### vector-vector binary operators: one-to-one label-set matching -/
+
+theorem find_self_of_noDup (k : Series → Tags) (l : List Series) (h : hasDup (l.map k) = false) :
+    ∀ s ∈ l, l.find? (fun s' => k s' = k s) = some s := by
+  induction l with
+  | nil => intro s hs; cases hs
+  | cons x xs ih =>
+    simp only [List.map_cons, hasDup, Bool.or_eq_false_iff] at h
+    obtain ⟨hx, hxs⟩ := h
+    intro s hs
+    rcases List.mem_cons.mp hs with rfl | hs
+    · simp [List.find?]
+    · have hne : k x ≠ k s := by
+        intro heq
+        have : (xs.map k).contains (k x) = true := by
+          rw [List.contains_iff_mem]; rw [heq]; exact List.mem_map_of_mem hs
+        rw [this] at hx; cases hx
+      simp only [List.find?]
+      simp [hne, ih hxs s hs]
+
+theorem filterMap_eq_map_of_some {α β} (l : List α) (f : α → Option β) (g : α → β) (h : ∀ a ∈ l, f a = some (g a)) :
+    l.filterMap f = l.map g := by
+  induction l with
+  | nil => rfl
+  | cons x xs ih =>
+    simp only [List.filterMap_cons, h x (List.mem_cons_self), List.map_cons]
+    rw [ih (fun a ha => h a (List.mem_cons_of_mem _ ha))]
+
+/-- **an operand matched against itself**: for a vector that is not the label-less scalar and whose matching label sets
+    are pairwise different, `x op x` (any matching) pairs every series with itself: no series is lost, the values are
+    `v op v` pointwise, the labels are the matching labels.  (This is the inner step of `agg (x op x) op agg (x)`.) -/
+theorem binApply_self (op : BinOp) (m : Matching) (ss : List Series)
+    (hs : isScalar ss = false) (hd : hasDup (ss.map (fun s => matchKey m s.tags)) = false) :
+    binApply op m ss ss =
+      some (ss.map (fun s => { tags := matchKey m s.tags, vals := zipVals (binVal op false) s.vals s.vals })) := by
+  unfold binApply
+  simp only [hs, hd, Bool.false_eq_true, if_false, Bool.or_self]
+  congr 1
+  apply filterMap_eq_map_of_some
+  intro s hmem
+  rw [find_self_of_noDup (fun s => matchKey m s.tags) ss hd s hmem]
+  rfl
+
+/-- every result series of a label-matched operation comes from a left series and a right series with the same matching
+    label set, carries exactly that label set, and no left series contributes twice -/
+theorem binApply_matched (op : BinOp) (m : Matching) (l r out : List Series)
+    (hl : isScalar l = false) (hr : isScalar r = false) (h : binApply op m l r = some out) :
+    out.length ≤ l.length ∧
+    ∀ o ∈ out, ∃ a ∈ l, ∃ b ∈ r, matchKey m a.tags = matchKey m b.tags ∧ o.tags = matchKey m a.tags ∧
+      o.vals = zipVals (binVal op false) a.vals b.vals := by
+  unfold binApply at h
+  simp only [hl, hr, Bool.false_eq_true, if_false] at h
+  split at h
+  · cases h
+  · cases h
+    refine ⟨List.length_filterMap_le _ _, ?_⟩
+    intro o ho
+    rw [List.mem_filterMap] at ho
+    obtain ⟨a, ha, hfa⟩ := ho
+    cases hf : r.find? (fun s' => matchKey m s'.tags = matchKey m a.tags) with
+    | none => rw [hf] at hfa; cases hfa
+    | some b =>
+      rw [hf] at hfa
+      simp only [Option.map_some, Option.some.injEq] at hfa
+      have hb := List.find?_some hf
+      have hbm := List.mem_of_find?_eq_some hf
+      simp only [decide_eq_true_eq] at hb
+      exact ⟨a, ha, b, hbm, hb.symm, by rw [← hfa], by rw [← hfa]⟩
+
+/-- non-vacuity: two series matched on label 1; `on (1)` keeps only that label; a scalar left operand keeps the right points -/
+example :
+    binApply .mul (.on [1]) [⟨[(1, 1), (2, 1)], [some 2, none]⟩, ⟨[(1, 2), (2, 1)], [some 3, some 4]⟩]
+                            [⟨[(1, 2)], [some 10, some 10]⟩, ⟨[(1, 1)], [some 5, some 5]⟩]
+      = some [⟨[(1, 1)], [some 10, none]⟩, ⟨[(1, 2)], [some 30, some 40]⟩] := by decide +kernel
+example :
+    binApply .add .dflt [⟨[(1, 1)], [some 2]⟩, ⟨[(1, 1)], [some 3]⟩] [⟨[(1, 1)], [some 1]⟩] = none := by decide +kernel
+example :
+    binApply .gt .dflt [⟨[], [some 7, some 7]⟩] [⟨[(1, 1)], [some 5, some 9]⟩] = some [⟨[(1, 1)], [some 5, none]⟩] := by
+  decide +kernel
+
 
 end SH.Props.C27
